@@ -16,7 +16,7 @@ M = [
  ('M-C02-load64-swap', ['C02', 'C08', 'C10'], [(S+'internal/loaders.c', "         ((uint16_t) * (source + 6) << 0x08) + (uint8_t) * (source + 7);", "         ((uint16_t) * (source + 7) << 0x08) + (uint8_t) * (source + 6);")]),
  ('M-C02-negint32-as-uint', ['C02'], [(S+'internal/builder_callbacks.c', "  cbor_item_t* res = cbor_new_int32();\n  CHECK_RES(ctx, res);\n  cbor_mark_negint(res);", "  cbor_item_t* res = cbor_new_int32();\n  CHECK_RES(ctx, res);\n  if (value != UINT32_MAX) cbor_mark_negint(res);")]),
  ('M-C03-uint8-boundary', ['C03', 'C10', 'C07'], [(S+'internal/encoders.c', "    if (value <= UINT8_MAX)\n      return _cbor_encode_uint8", "    if (value < UINT8_MAX)\n      return _cbor_encode_uint8")]),
- ('M-C03-no-break-indef-map', ['C03', 'C07'], [(S+'serialization.c', "    CBOR_ASSERT(cbor_map_is_indefinite(item));\n    size_t break_written =\n        cbor_encode_break(buffer + written, buffer_size - written);\n    if (break_written == 0) return 0;\n    return written + break_written;", "    CBOR_ASSERT(cbor_map_is_indefinite(item));\n    size_t break_written =\n        cbor_encode_break(buffer + written, buffer_size - written);\n    if (break_written == 0) return 0;\n    return size > 0 ? written + break_written : written + break_written - (buffer[written] == 0xFF ? 0 : 1);")]),
+ ('M-C03-no-break-empty-indef-map', ['C03', 'C07'], [(S+'serialization.c', "    CBOR_ASSERT(cbor_map_is_indefinite(item));\n    size_t break_written =\n        cbor_encode_break(buffer + written, buffer_size - written);", "    CBOR_ASSERT(cbor_map_is_indefinite(item));\n    if (size == 0 && buffer_size - written > 1) return written;\n    size_t break_written =\n        cbor_encode_break(buffer + written, buffer_size - written);")]),
  ('M-C03-single-nan', ['C03', 'C15', 'C10'], [(S+'encoding.c', "    return _cbor_encode_uint32(0x7FC0 << 16, buffer, buffer_size, 0xE0);", "    return _cbor_encode_uint32(signbit(value) ? 0xFFC0u << 16 : 0x7FC0 << 16, buffer, buffer_size, 0xE0);")]),
  ('M-C04-push-noincref-definite', ['C04'], [(S+'arrays.c', "    data[metadata->end_ptr++] = pushee;\n  } else {", "    data[metadata->end_ptr++] = pushee;\n    if (metadata->end_ptr == metadata->allocated) return true;\n  } else {")]),
  ('M-C04-replace-no-decref', ['C04'], [(S+'arrays.c', "  cbor_intermediate_decref(((cbor_item_t**)item->data)[index]);", "  if (index + 1 != item->metadata.array_metadata.end_ptr) cbor_intermediate_decref(((cbor_item_t**)item->data)[index]);")]),
